@@ -253,6 +253,9 @@ def run(ctx):
     # the outcome of a later import must not depend on an earlier failed one: a library whose body fails leaves the importer's
     # import phase as it was (a later (import ...) of a healthy library is still accepted)
     libtables.rule_state_after_body_failure(ctx, "C14-history-independent")
+    # what a library body can see: a root environment made for it — never the importing program's, whose contents are the history of
+    # what was imported and defined before (a body run under it succeeds or fails, and means, something else after other imports)
+    libtables.rule_definition(ctx, "C14-history-independent", None)
     ctx.rule("C14-history-independent", "loading a library from its file registers / caches nothing under another name the file may also "
                                         "hold: the outcome of a later import does not depend on this one having been attempted")
     libtables.rule_file_load(ctx, "C14-history-independent")
